@@ -105,7 +105,14 @@ func raceQuery(c *sim.Ctx, n *Node, g *chaingen.Gen, before, after []*chaingen.B
 	}
 	ch := evChunks[t.Draw("race.chunk", len(evChunks))]
 	fired := false
-	n.FDB.Plan.BeforeCommit = func(int) {
+	// two preemption points: when the writer opens its batch (nothing done yet, but whatever it did
+	// before opening it - e.g. dropping caches - has happened) and right before the batch is applied
+	atOpen := t.Draw("race.point", 2) == 1
+	where := "before the batch is applied"
+	if atOpen {
+		where = "when the batch is opened"
+	}
+	hook := func() {
 		if fired {
 			return
 		}
@@ -137,9 +144,14 @@ func raceQuery(c *sim.Ctx, n *Node, g *chaingen.Gen, before, after []*chaingen.B
 			}
 			c.Fail("events_during_pending_write", what+":"+kind, "event query %s chunk=%d issued while the %s's batch was pending returned %d events; the chain before the operation has %d, after it %d: vs before: %s", f, ch, what, len(got), len(wb), len(wa), firstDiff(canon(wb), cg))
 		}
-		c.Logf("reader inside the pending %s: query %s -> %d events", what, f, len(got))
+		c.Logf("reader inside the pending %s (%s): query %s -> %d events", what, where, f, len(got))
 	}
-	return func() { n.FDB.Plan.BeforeCommit = nil }
+	if atOpen {
+		n.FDB.Plan.BeforeUpdate = hook
+	} else {
+		n.FDB.Plan.BeforeCommit = func(int) { hook() }
+	}
+	return func() { n.FDB.Plan.BeforeCommit, n.FDB.Plan.BeforeUpdate = nil, nil }
 }
 
 func minU64(a, b uint64) uint64 {
@@ -241,7 +253,7 @@ func c09Long(c *sim.Ctx) {
 	windows := uint64(1 + t.Draw("windows", 2))
 	boundary := windows * W // first block of the next window
 	c.Logf("long run newstate=%v pebble=%v boundary=%d", newState, usePebble, boundary)
-	racing := false
+	racing, forceRace := false, false
 	store := func(empty bool) {
 		o := d.opts
 		o.Empty = empty
@@ -268,7 +280,7 @@ func c09Long(c *sim.Ctx) {
 	revert := func() {
 		h := m.Head()
 		disarm := func() {}
-		if racing && t.Draw("race.revert", 2) == 0 {
+		if racing && (forceRace || t.Draw("race.revert", 2) == 0) {
 			disarm = raceQuery(c, n, d.g, m.Chain, m.Chain[:len(m.Chain)-1], boundary, "revert")
 		}
 		err := n.BC.RevertHead()
@@ -296,9 +308,25 @@ func c09Long(c *sim.Ctx) {
 	steps := 8 + t.Draw("steps", 18)
 	crossedFwd, crossedBack := 0, 0
 	for s := 0; s < steps; s++ {
-		op := t.Draw("op", 12)
+		op := t.Draw("op", 13)
 		before := uint64(len(m.Chain))
 		switch {
+		case op == 12:
+			// the block that completes a window is replaced while a reader queries that window inside the
+			// revert's pending commit; the replacement (with events) completes the window again
+			for uint64(len(m.Chain)) > boundary {
+				revert()
+			}
+			for uint64(len(m.Chain)) < boundary {
+				// mostly empty: the replaced block then leaves no bits that would hide a stale index window
+				store(t.Draw("empty", 4) != 0)
+			}
+			c.Logf("replace block %d (last of its window) under a racing reader", boundary-1)
+			forceRace = true
+			revert()
+			forceRace = false
+			store(false)
+			c.Probe("window_closing_block_replaced_under_reader")
 		case op <= 5:
 			if uint64(len(m.Chain))%W == W-1 && t.Draw("fail.window.end", 4) != 0 {
 				// the commit of the block that completes a window fails once; nothing may stay behind
